@@ -56,7 +56,7 @@ impl Prop for C08 {
             Leg {
                 name: "random",
                 kind: LegKind::Random {
-                    cases: tier.pick(1500, 20_000),
+                    cases: tier.pick(30000, 150000),
                 },
                 workers: 16,
                 build: Build::Normal,
